@@ -432,7 +432,7 @@ func main() {
 			return run(ctx, in)
 		},
 	})
-	if err := encx.Reshard(encx.OutDir(), header, "case", "run_cases", 24); err != nil {
+	if err := encx.Reshard(encx.OutDir(), header, "case", "run_cases", encx.SmallShards()); err != nil {
 		fmt.Fprintln(os.Stderr, "c01: reshard:", err)
 		os.Exit(2)
 	}
